@@ -63,7 +63,7 @@ PROPS = {
         "case_sets": ["walk"],
         "ops": ["WALK"],
         "oracle_clauses": [r"c11-.*", r"unreadable-.*"],
-        "lean_targets": ["PqlModel.Props.C11"],
+        "lean_targets": ["PqlModel.Props.C11", "PqlModel.Props.C11b"],
         "facts": ["structFields", "walkCases", "walkLoops", "walkDefaultPanics"],
         "rule": "WALK: grammar-generated programs (every node type in every child position) walked with a visitor that "
                 "always returns true and with pseudo-random pruning masks; non-trivial = distinct (source, mask) that parses",
@@ -112,7 +112,7 @@ PROPS = {
     },
     "C06": {
         "case_sets": ["compile"],
-        "ops": ["COMPILE"],
+        "ops": ["COMPILE", "COMPILESEQ"],
         "oracle_clauses": [r"c06-.*", r"unreadable-.*"],
         "lean_targets": ["PqlModel.Props.C06"],
         "facts": ["builtinIdentifiers"],
@@ -132,8 +132,8 @@ PROPS = {
                 "non-trivial = distinct (source, parameters)",
     },
     "C14": {
-        "case_sets": ["hist"],
-        "ops": ["HIST", "FIRSTUSE"],
+        "case_sets": ["hist", "compile"],
+        "ops": ["HIST", "FIRSTUSE", "COMPILESEQ"],
         "race": True,
         "oracle_clauses": [r"c14-.*", r"unreadable-.*"],
         "lean_targets": ["PqlModel.Props.C14"],
@@ -149,7 +149,7 @@ PROPS = {
         "case_sets": ["cli"],
         "ops": ["CLI"],
         "oracle_clauses": [r"c16-.*", r"unreadable-.*"],
-        "lean_targets": ["PqlModel.Props.C16a"],
+        "lean_targets": ["PqlModel.Props.C16a", "PqlModel.Props.C16"],
         "facts": [],
         "rule": "CLI: the built cmd/pql binary on scripts (sequences of let / query / invalid statements, several per line, across "
                 "lines, comments, blank lines, CRLF, final statement terminated or not, lines around the 64 KiB limit) via stdin, "
@@ -192,6 +192,8 @@ def nontrivial(op, lhs, impl):
         return (head.isdigit() and int(head) >= 2) or "3b" in lhs
     if op == "EVAL":
         return head == "OK"
+    if op == "COMPILESEQ":
+        return True
     if op in ("COMPILE", "COMPILE2"):
         return head == "OK" or op == "COMPILE2"
     if op == "QUOTE":
